@@ -180,7 +180,34 @@ def _swap(ck, name, N, C, frac, pins, make):
     want_ = _swap_spectrum(enc.outs[0], N, C, K, perm, sign)
     L = ins[0].s
     for i in np.ndindex(want_.shape):
-        ck.add(f"swap/{name}/N{N}/{'_'.join(map(str, i))}", sym.equal_goal(enc2.outs[0][i], want_[i]), [L > 0], family=f"axis-swap equivariance/{name}", timeout=120)
+        ck.add(f"swap/{name}/N{N}/{'_'.join(map(str, i))}", sym.equal_goal(enc2.outs[0][i], want_[i]), [L > 0], family=f"axis-swap equivariance/{name}", timeout=120,
+               replay=_swap_replay(name, N, C, K, perm, sign, make, pins))
+
+
+def _band_limit(u, D, N, K):
+    """project a real field onto the modes with max-norm wavenumber <= K (numpy, independent of the code under test)"""
+    uh = np.fft.fftn(np.asarray(u), axes=tuple(range(1, D + 1)))
+    k = np.fft.fftfreq(N, 1.0 / N)
+    grids = np.meshgrid(*([k] * D), indexing="ij")
+    keep = np.ones((N,) * D, dtype=bool)
+    for g in grids:
+        keep &= np.abs(g) <= K
+    return jnp.asarray(np.real(np.fft.ifftn(uh * keep, axes=tuple(range(1, D + 1)))))
+
+
+def _swap_replay(name, N, C, K, perm, sign, make, pins):
+    def replay(model):
+        rng = np.random.default_rng(11)
+        params = [jnp.asarray(rng.uniform(0.3, 1.0, size=p.shape)) for p in pins]
+        nf = make(1.4, *params)
+        u = _band_limit(rng.normal(size=(C, N, N)), 2, N, K)
+        Pi = lambda w: sign * jnp.swapaxes(w, 1, 2)[jnp.asarray(perm)]
+        phys = lambda w: ex.ifft(nf(ex.fft(w)), num_spatial_dims=2, num_points=N)
+        a, b = phys(Pi(u)), Pi(phys(u))
+        e = float(jnp.max(jnp.abs(a - b)))
+        return {"reproduced": e > 1e-9, "detail": f"{name} 2D N={N}: N(Pi u) vs Pi N(u) differ by {e:.3g} on a random state band-limited to |k|<={K}"}
+
+    return replay
 
 
 def _embed(ck, name, N, frac, pins):
@@ -216,7 +243,24 @@ def _embed(ck, name, N, frac, pins):
             else:
                 want_[(0,) + idx] = Cx(ZERO, ZERO)
         for i in np.ndindex(want_.shape):
-            ck.add(f"embed/{name}/N{N}/axis{axis}/{'_'.join(map(str, i))}", sym.equal_goal(o2[i], want_[i]), [ins[0].s > 0], family=f"embedding 1D in 2D/{name}", timeout=120)
+            ck.add(f"embed/{name}/N{N}/axis{axis}/{'_'.join(map(str, i))}", sym.equal_goal(o2[i], want_[i]), [ins[0].s > 0], family=f"embedding 1D in 2D/{name}", timeout=120,
+                   replay=_embed_replay(name, N, axis, mk1, mk2, pins))
+
+
+def _embed_replay(name, N, axis, mk1, mk2, pins):
+    def replay(model):
+        rng = np.random.default_rng(13)
+        params = [jnp.asarray(rng.uniform(0.3, 1.0, size=p.shape)) for p in pins]
+        n1, n2 = mk1(1.4, *params), mk2(1.4, *params)
+        u1 = jnp.asarray(rng.normal(size=(1, N)))
+        u2 = jnp.broadcast_to(u1[:, :, None] if axis == 0 else u1[:, None, :], (1, N, N))
+        a = ex.ifft(n2(ex.fft(u2)), num_spatial_dims=2, num_points=N)
+        b1 = ex.ifft(n1(ex.fft(u1)), num_spatial_dims=1, num_points=N)
+        b = jnp.broadcast_to(b1[:, :, None] if axis == 0 else b1[:, None, :], (1, N, N))
+        e = float(jnp.max(jnp.abs(a - b)))
+        return {"reproduced": e > 1e-9, "detail": f"{name} N={N}: 2D term on a state varying along axis {axis} only vs the 1D term differ by {e:.3g}"}
+
+    return replay
 
 
 def _multipliers(ck):
